@@ -1,4 +1,5 @@
 """Conformance of the Einstein Toolkit reader with spec/etsim (Chunks.tla, ETSim.tla)."""
+import glob
 import json
 import multiprocessing as mp
 import os
@@ -186,7 +187,8 @@ def check_sim(job):
     try:
         name = "run_a" if seq % 2 else "bbh"
         restarts = [dict(r) for r in st["restarts"]]
-        G.make_sim(tmp + "/", name, restarts, M=M, ghost=SIM_GHOSTS[seq % len(SIM_GHOSTS)], chunks=chunks, layout=layout, nlev=st["nlev"])
+        G.make_sim(tmp + "/", name, restarts, M=M, ghost=SIM_GHOSTS[seq % len(SIM_GHOSTS)], chunks=chunks, layout=layout, nlev=st["nlev"],
+                   active_link=(seq % 2 == 0))
         param = sim_param(tmp, name)
         for nrd, rd in enumerate(st["reads"]):
             q, res = rd["q"], rd["res"]
@@ -342,7 +344,7 @@ def check_cache_history(job):
     tmp = tempfile.mkdtemp(prefix="vrc_")
     try:
         name = "sim"
-        G.make_sim(tmp + "/", name, CACHE_RESTARTS, M=M, ghost=2, chunks=chunks, layout=layout, nlev=2)
+        G.make_sim(tmp + "/", name, CACHE_RESTARTS, M=M, ghost=2, chunks=chunks, layout=layout, nlev=2, active_link=(layout_idx % 2 == 0))
         param = sim_param(tmp, name)
         full = recs[-1]["hist"]
         by_len = {len(r["hist"]): r for r in recs}
@@ -488,6 +490,11 @@ def check_catalogue(job):
         r = restarts[k]
         # gen_et writes multiples of `every` in lo..hi for every level with the same stride; levels differ here:
         G_make(tmp, name, k, r, M, chunks, layout, nlev)
+        if seq % 2 == 0:
+            # simfactory keeps a link "output-NNNN-active" to the restart that is running: it is not a restart
+            for old in glob.glob(os.path.join(tmp, name, "output-*-active")):
+                os.unlink(old)
+            os.symlink(f"output-{k:04d}", os.path.join(tmp, name, f"output-{k:04d}-active"))
 
     def hist_txt(n):
         out = []
